@@ -357,3 +357,32 @@ Definition C11_dom (ns : nsdict) (tau : str) (st : stmt) : bool :=
 
 Definition C11_dom_shape (ns : nsdict) (tau : str) (sh : shape) : bool :=
   ns_ok ns && shape_ref (sh_name sh) && forallb (C11_dom ns tau) (sh_stmts sh).
+
+(** ** the full domain of the property (statements the extraction produces
+    with [disable_or_statements] at its default, on graphs whose predicates
+    and classes SHACL serialisation accepts) and the root causes that separate
+    it from [C11_dom] *)
+Definition stmt_wf (ns : nsdict) (tau : str) (st : stmt) : bool :=
+  ns_ok ns && str_eqb (shex_tau tau) tau &&
+  negb (s_choice st) && card_pos (s_card st) && http_iri (s_prop st) &&
+  match s_types st with
+  | [ty] =>
+    if str_eqb (s_prop st) tau then http_iri ty
+    else mem_str ty [Str "IRI"; Str "BNode"; Str "NONLITERAL"] || shape_ref ty || plain_iri ty
+  | _ => false
+  end.
+
+Definition is_tau (tau : str) (st : stmt) : bool := str_eqb (s_prop st) tau.
+
+(** F1: node kind BNode (the macro table maps it to nothing) *)
+Definition rc_bnode (tau : str) (st : stmt) : bool :=
+  negb (is_tau tau st) && str_eqb (s_type st) (Str "BNode").
+(** F2: node kind NONLITERAL (not in the macro table: falls through to sh:dataType) *)
+Definition rc_nonliteral (tau : str) (st : stmt) : bool :=
+  negb (is_tau tau st) && str_eqb (s_type st) (Str "NONLITERAL").
+(** F3: instantiation constraint with a cardinality other than exactly one *)
+Definition rc_tau_card (tau : str) (st : stmt) : bool :=
+  is_tau tau st && negb (card_eqb (s_card st) (CExact 1)).
+(** F4: inverse instantiation constraint (written with a direct path) *)
+Definition rc_tau_inverse (tau : str) (st : stmt) : bool :=
+  is_tau tau st && s_inv st.
